@@ -58,48 +58,38 @@ Inductive nev :=
 Definition both_cases (kw : kws) : kws := concat (map (fun p => [p; (100 + fst p, snd p)]) kw).
 
 (* ---------------------------------------------------------------------------------------------- state *)
-(* what the history alone determines (no observation enters here): Tor's view, the objects created so far
-   with the listeners registered on each, the global listener lists, the wait ids used *)
-Record obj := { ob_id : N; ob_alive : bool; ob_built : bool; ob_failed : bool; ob_regs : list N }.
+(* what the history alone determines (no observation enters here): Tor's view; which object stands for
+   which id Tor currently has (the first event for an id Tor does not have creates the next object); for
+   every object so far its Tor id, whether it reached BUILT, whether it ended FAILED; the listeners
+   registered on it; the global listener lists; the wait ids used *)
+Record oinfo := { oi_id : N; oi_built : bool; oi_failed : bool }.
 
 Record lstate := { l_tv : tview;
-                   l_cobjs : list obj; l_sobjs : list obj;      (* every object so far, by number *)
-                   l_gcl : list N; l_gsl : list N;               (* listeners added globally *)
-                   l_used : list N }.                            (* wait ids used so far *)
+                   l_cdict : list (N * N); l_sdict : list (N * N);      (* Tor id -> object, for the ids Tor has *)
+                   l_nc : N; l_ns : N;                                   (* objects created so far *)
+                   l_cinfo : list (N * oinfo); l_sinfo : list (N * oinfo);
+                   l_cregs : list (N * list N); l_sregs : list (N * list N);   (* object -> registered listeners *)
+                   l_gcl : list N; l_gsl : list N;                        (* listeners added globally *)
+                   l_used : list N }.                                     (* wait ids used so far *)
 
-Definition ls0 : lstate := {| l_tv := tv0; l_cobjs := []; l_sobjs := []; l_gcl := []; l_gsl := []; l_used := [] |}.
+Definition ls0 : lstate :=
+  {| l_tv := tv0; l_cdict := []; l_sdict := []; l_nc := 0; l_ns := 0; l_cinfo := []; l_sinfo := []; l_cregs := [];
+     l_sregs := []; l_gcl := []; l_gsl := []; l_used := [] |}.
 
 Definition add_once (l : N) (ls : list N) : list N := if memN l ls then ls else ls ++ [l].
 Definition dedupe (ls : list N) : list N := fold_left (fun acc l => add_once l acc) ls [].
 
-Fixpoint upd_nth {A} (n : nat) (f : A -> A) (l : list A) : list A :=
-  match l, n with
-  | [], _ => []
-  | x :: t, O => f x :: t
-  | x :: t, S n' => x :: upd_nth n' f t
-  end.
-Definition nthN {A} (l : list A) (n : N) : option A := nth_error l (N.to_nat n).
+(* the object an event for [id] is about: the one standing for that id, or the next new one *)
+Definition locate (id : N) (dict : list (N * N)) (n : N) : bool * N :=
+  match kfind fst id dict with Some p => (false, snd p) | None => (true, n) end.
 
-Definition set_regs (o : obj) (r : list N) : obj :=
-  {| ob_id := ob_id o; ob_alive := ob_alive o; ob_built := ob_built o; ob_failed := ob_failed o; ob_regs := r |}.
+Definition alive (dict : list (N * N)) (o : N) : bool := memN o (map snd dict).
 
-(* the object number of the live circuit / stream with Tor id [id] *)
-Fixpoint find_live (id : N) (objs : list obj) (n : N) : option N :=
-  match objs with
-  | [] => None
-  | o :: t => if ob_alive o && (ob_id o =? id) then Some n else find_live id t (n + 1)
-  end.
+(* a listener added globally is registered on every object Tor still has *)
+Definition add_to_all (l : N) (dict : list (N * N)) (regs : list (N * list N)) : list (N * list N) :=
+  fold_left (fun t p => tset t (snd p) (add_once l (tget [] t (snd p)))) dict regs.
 
-(* the object an event is about: the live one with that id, or a new one carrying the global listeners *)
-Definition locate (id : N) (objs : list obj) (globals : list N) : bool * N * list obj :=
-  match find_live id objs 0 with
-  | Some o => (false, o, objs)
-  | None => (true, nlen objs, objs ++ [{| ob_id := id; ob_alive := true; ob_built := false; ob_failed := false; ob_regs := dedupe globals |}])
-  end.
-
-Definition with_regs (ls : lstate) (circ : bool) (objs : list obj) : lstate :=
-  if circ then {| l_tv := l_tv ls; l_cobjs := objs; l_sobjs := l_sobjs ls; l_gcl := l_gcl ls; l_gsl := l_gsl ls; l_used := l_used ls |}
-  else {| l_tv := l_tv ls; l_cobjs := l_cobjs ls; l_sobjs := objs; l_gcl := l_gcl ls; l_gsl := l_gsl ls; l_used := l_used ls |}.
+Definition info0 (id : N) : oinfo := {| oi_id := id; oi_built := false; oi_failed := false |}.
 
 (* None = not a history the property quantifies over *)
 Definition lstep (ls : lstate) (o : op) : option lstate :=
@@ -109,68 +99,81 @@ Definition lstep (ls : lstate) (o : op) : option lstate :=
       let tv' := tor_step (l_tv ls) e in
       match e with
       | ECirc id st path kw =>
-          let '(_, o, objs1) := locate id (l_cobjs ls) (l_gcl ls) in
-          let built := match st with CBuilt => true | _ => false end in
+          let '(first, o) := locate id (l_cdict ls) (l_nc ls) in
+          let d1 := if first then l_cdict ls ++ [(id, o)] else l_cdict ls in
+          let old := tget (info0 id) (l_cinfo ls) o in
           Some {| l_tv := tv';
-                  l_cobjs := upd_nth (N.to_nat o) (fun x => {| ob_id := id; ob_alive := negb (c_terminal st);
-                                                               ob_built := ob_built x || built;
-                                                               ob_failed := match st with CFailed => true | _ => false end;
-                                                               ob_regs := ob_regs x |}) objs1;
-                  l_sobjs := l_sobjs ls; l_gcl := l_gcl ls; l_gsl := l_gsl ls; l_used := l_used ls |}
+                  l_cdict := if c_terminal st then kdel fst id d1 else d1;
+                  l_sdict := l_sdict ls;
+                  l_nc := if first then l_nc ls + 1 else l_nc ls; l_ns := l_ns ls;
+                  l_cinfo := tset (l_cinfo ls) o
+                               {| oi_id := id;
+                                  oi_built := oi_built old || match st with CBuilt => true | _ => false end;
+                                  oi_failed := match st with CFailed => true | _ => false end |};
+                  l_sinfo := l_sinfo ls;
+                  l_cregs := if first then tset (l_cregs ls) o (dedupe (l_gcl ls)) else l_cregs ls;
+                  l_sregs := l_sregs ls; l_gcl := l_gcl ls; l_gsl := l_gsl ls; l_used := l_used ls |}
       | EStream id st cid host port kw =>
-          let '(_, o, objs1) := locate id (l_sobjs ls) (l_gsl ls) in
-          Some {| l_tv := tv'; l_cobjs := l_cobjs ls;
-                  l_sobjs := upd_nth (N.to_nat o) (fun x => {| ob_id := id; ob_alive := negb (s_terminal st);
-                                                               ob_built := false; ob_failed := false;
-                                                               ob_regs := ob_regs x |}) objs1;
+          let '(first, o) := locate id (l_sdict ls) (l_ns ls) in
+          let d1 := if first then l_sdict ls ++ [(id, o)] else l_sdict ls in
+          Some {| l_tv := tv'; l_cdict := l_cdict ls;
+                  l_sdict := if s_terminal st then kdel fst id d1 else d1;
+                  l_nc := l_nc ls; l_ns := if first then l_ns ls + 1 else l_ns ls;
+                  l_cinfo := l_cinfo ls; l_sinfo := tset (l_sinfo ls) o (info0 id);
+                  l_cregs := l_cregs ls;
+                  l_sregs := if first then tset (l_sregs ls) o (dedupe (l_gsl ls)) else l_sregs ls;
                   l_gcl := l_gcl ls; l_gsl := l_gsl ls; l_used := l_used ls |}
       end
   | OAddCL l =>
-      Some {| l_tv := l_tv ls;
-              l_cobjs := map (fun x => if ob_alive x then set_regs x (add_once l (ob_regs x)) else x) (l_cobjs ls);
-              l_sobjs := l_sobjs ls; l_gcl := l_gcl ls ++ [l]; l_gsl := l_gsl ls; l_used := l_used ls |}
+      Some {| l_tv := l_tv ls; l_cdict := l_cdict ls; l_sdict := l_sdict ls; l_nc := l_nc ls; l_ns := l_ns ls;
+              l_cinfo := l_cinfo ls; l_sinfo := l_sinfo ls;
+              l_cregs := add_to_all l (l_cdict ls) (l_cregs ls); l_sregs := l_sregs ls;
+              l_gcl := l_gcl ls ++ [l]; l_gsl := l_gsl ls; l_used := l_used ls |}
   | OAddSL l =>
-      Some {| l_tv := l_tv ls; l_cobjs := l_cobjs ls;
-              l_sobjs := map (fun x => if ob_alive x then set_regs x (add_once l (ob_regs x)) else x) (l_sobjs ls);
+      Some {| l_tv := l_tv ls; l_cdict := l_cdict ls; l_sdict := l_sdict ls; l_nc := l_nc ls; l_ns := l_ns ls;
+              l_cinfo := l_cinfo ls; l_sinfo := l_sinfo ls;
+              l_cregs := l_cregs ls; l_sregs := add_to_all l (l_sdict ls) (l_sregs ls);
               l_gcl := l_gcl ls; l_gsl := l_gsl ls ++ [l]; l_used := l_used ls |}
   | OCListen o l =>
-      match nthN (l_cobjs ls) o with
-      | Some _ => Some (with_regs ls true (upd_nth (N.to_nat o) (fun x => set_regs x (add_once l (ob_regs x))) (l_cobjs ls)))
-      | None => None
-      end
+      if o <? l_nc ls then
+        Some {| l_tv := l_tv ls; l_cdict := l_cdict ls; l_sdict := l_sdict ls; l_nc := l_nc ls; l_ns := l_ns ls;
+                l_cinfo := l_cinfo ls; l_sinfo := l_sinfo ls;
+                l_cregs := tset (l_cregs ls) o (add_once l (tget [] (l_cregs ls) o)); l_sregs := l_sregs ls;
+                l_gcl := l_gcl ls; l_gsl := l_gsl ls; l_used := l_used ls |}
+      else None
   | OCUnlisten o l =>        (* only a listener that is registered can be removed *)
-      match nthN (l_cobjs ls) o with
-      | Some ob => if memN l (ob_regs ob)
-                   then Some (with_regs ls true (upd_nth (N.to_nat o) (fun x => set_regs x (remove1 l (ob_regs x))) (l_cobjs ls)))
-                   else None
-      | None => None
-      end
+      if (o <? l_nc ls) && memN l (tget [] (l_cregs ls) o) then
+        Some {| l_tv := l_tv ls; l_cdict := l_cdict ls; l_sdict := l_sdict ls; l_nc := l_nc ls; l_ns := l_ns ls;
+                l_cinfo := l_cinfo ls; l_sinfo := l_sinfo ls;
+                l_cregs := tset (l_cregs ls) o (remove1 l (tget [] (l_cregs ls) o)); l_sregs := l_sregs ls;
+                l_gcl := l_gcl ls; l_gsl := l_gsl ls; l_used := l_used ls |}
+      else None
   | OSListen o l =>
-      match nthN (l_sobjs ls) o with
-      | Some _ => Some (with_regs ls false (upd_nth (N.to_nat o) (fun x => set_regs x (add_once l (ob_regs x))) (l_sobjs ls)))
-      | None => None
-      end
+      if o <? l_ns ls then
+        Some {| l_tv := l_tv ls; l_cdict := l_cdict ls; l_sdict := l_sdict ls; l_nc := l_nc ls; l_ns := l_ns ls;
+                l_cinfo := l_cinfo ls; l_sinfo := l_sinfo ls; l_cregs := l_cregs ls;
+                l_sregs := tset (l_sregs ls) o (add_once l (tget [] (l_sregs ls) o));
+                l_gcl := l_gcl ls; l_gsl := l_gsl ls; l_used := l_used ls |}
+      else None
   | OSUnlisten o l =>
-      match nthN (l_sobjs ls) o with
-      | Some ob => if memN l (ob_regs ob)
-                   then Some (with_regs ls false (upd_nth (N.to_nat o) (fun x => set_regs x (remove1 l (ob_regs x))) (l_sobjs ls)))
-                   else None
-      | None => None
-      end
+      if (o <? l_ns ls) && memN l (tget [] (l_sregs ls) o) then
+        Some {| l_tv := l_tv ls; l_cdict := l_cdict ls; l_sdict := l_sdict ls; l_nc := l_nc ls; l_ns := l_ns ls;
+                l_cinfo := l_cinfo ls; l_sinfo := l_sinfo ls; l_cregs := l_cregs ls;
+                l_sregs := tset (l_sregs ls) o (remove1 l (tget [] (l_sregs ls) o));
+                l_gcl := l_gcl ls; l_gsl := l_gsl ls; l_used := l_used ls |}
+      else None
   | OWhenBuilt o w | OWhenClosed o w | OCClose o w =>      (* the object exists, the wait id is fresh *)
-      match nthN (l_cobjs ls) o with
-      | Some _ => if memN w (l_used ls) then None
-                  else Some {| l_tv := l_tv ls; l_cobjs := l_cobjs ls; l_sobjs := l_sobjs ls; l_gcl := l_gcl ls;
-                               l_gsl := l_gsl ls; l_used := w :: l_used ls |}
-      | None => None
-      end
+      if (o <? l_nc ls) && negb (memN w (l_used ls)) then
+        Some {| l_tv := l_tv ls; l_cdict := l_cdict ls; l_sdict := l_sdict ls; l_nc := l_nc ls; l_ns := l_ns ls;
+                l_cinfo := l_cinfo ls; l_sinfo := l_sinfo ls; l_cregs := l_cregs ls; l_sregs := l_sregs ls;
+                l_gcl := l_gcl ls; l_gsl := l_gsl ls; l_used := w :: l_used ls |}
+      else None
   | OSClose o w =>
-      match nthN (l_sobjs ls) o with
-      | Some _ => if memN w (l_used ls) then None
-                  else Some {| l_tv := l_tv ls; l_cobjs := l_cobjs ls; l_sobjs := l_sobjs ls; l_gcl := l_gcl ls;
-                               l_gsl := l_gsl ls; l_used := w :: l_used ls |}
-      | None => None
-      end
+      if (o <? l_ns ls) && negb (memN w (l_used ls)) then
+        Some {| l_tv := l_tv ls; l_cdict := l_cdict ls; l_sdict := l_sdict ls; l_nc := l_nc ls; l_ns := l_ns ls;
+                l_cinfo := l_cinfo ls; l_sinfo := l_sinfo ls; l_cregs := l_cregs ls; l_sregs := l_sregs ls;
+                l_gcl := l_gcl ls; l_gsl := l_gsl ls; l_used := w :: l_used ls |}
+      else None
   | OAck => Some ls
   end.
 
@@ -272,27 +275,21 @@ Definition done_ok (must may : list (N * want)) (es : list nev) : bool :=
 Definition notif_check (ls : lstate) (o : op) (es : list nev) : bool :=
   match o with
   | OEv (ECirc id st path kw) =>
-      let '(first, ob_n, objs1) := locate id (l_cobjs ls) (l_gcl ls) in
-      match nthN objs1 ob_n with
-      | None => false
-      | Some ob =>
-          let oldlen := match kfind tc_id id (tcs (l_tv ls)) with Some t => length (tc_path t) | None => O end in
-          notif_ok true (ob_regs ob) (expected_circ first oldlen ob_n st path kw) es
-      end
+      let '(first, ob) := locate id (l_cdict ls) (l_nc ls) in
+      let regs := if first then dedupe (l_gcl ls) else tget [] (l_cregs ls) ob in
+      let oldlen := match kfind tc_id id (tcs (l_tv ls)) with Some t => length (tc_path t) | None => O end in
+      notif_ok true regs (expected_circ first oldlen ob st path kw) es
   | OEv (EStream id st cid host port kw) =>
-      let '(first, ob_n, objs1) := locate id (l_sobjs ls) (l_gsl ls) in
-      match nthN objs1 ob_n with
-      | None => false
-      | Some ob =>
-          let tv' := tor_step (l_tv ls) (EStream id st cid host port kw) in
-          let att_before := match kfind ts_id id (tss (l_tv ls)) with Some t => ts_att t | None => ANone end in
-          let att_after := match kfind ts_id id (tss tv') with Some t => ts_att t | None => ANone end in
-          let attached_to := match att_before, att_after with
-                             | ANone, AOn c => find_live c (l_cobjs ls) 0
-                             | _, _ => None
-                             end in
-          notif_ok false (ob_regs ob) (expected_stream ob_n st attached_to kw) es
-      end
+      let '(first, ob) := locate id (l_sdict ls) (l_ns ls) in
+      let regs := if first then dedupe (l_gsl ls) else tget [] (l_sregs ls) ob in
+      let tv' := tor_step (l_tv ls) (EStream id st cid host port kw) in
+      let att_before := match kfind ts_id id (tss (l_tv ls)) with Some t => ts_att t | None => ANone end in
+      let att_after := match kfind ts_id id (tss tv') with Some t => ts_att t | None => ANone end in
+      let attached_to := match att_before, att_after with
+                         | ANone, AOn c => option_map snd (kfind fst c (l_cdict ls))
+                         | _, _ => None
+                         end in
+      notif_ok false regs (expected_stream ob st attached_to kw) es
   | _ => no_notifs es
   end.
 
@@ -310,49 +307,31 @@ Definition spec_event (s : sstate) (e : event) (es : list nev) : bool * list wai
   let ls := s_l s in
   match e with
   | ECirc id st path kw =>
-      let '(first, o, objs1) := locate id (l_cobjs ls) (l_gcl ls) in
-      match nthN objs1 o with
-      | None => (false, [])
-      | Some ob =>
-          let oldlen := match kfind tc_id id (tcs (l_tv ls)) with Some t => length (tc_path t) | None => O end in
-          let built := match st with CBuilt => true | _ => false end in
-          let gone := c_terminal st in
-          let mine := filter (fun w => w_circ w && (w_obj w =? o)) (s_open s) in
-          let must :=
-            concat (map (fun w => match w_kind w with
-                                  | KBuilt => if built then [(w_id w, WantOkC o)] else if gone then [(w_id w, WantFail)] else []
-                                  | KClosed => if gone then [(w_id w, WantOkC o)] else []
-                                  | KClose => if gone && negb (w_pending_cmd w) then [(w_id w, WantOk)] else []
-                                  end) mine) in
-          let may :=
-            concat (map (fun w => match w_kind w with
-                                  | KClose => if gone && w_pending_cmd w then [(w_id w, WantOk)] else []
-                                  | _ => []
-                                  end) mine) in
-          (notif_check ls (OEv e) es
-           && done_ok must may es && negb (has_cmd es) && negb (raised es),
-           if gone then mark_gone true o (dones es) (s_open s) else drop_done (dones es) (s_open s))
-      end
+      let '(first, o) := locate id (l_cdict ls) (l_nc ls) in
+      let built := match st with CBuilt => true | _ => false end in
+      let gone := c_terminal st in
+      let mine := filter (fun w => w_circ w && (w_obj w =? o)) (s_open s) in
+      let must :=
+        concat (map (fun w => match w_kind w with
+                              | KBuilt => if built then [(w_id w, WantOkC o)] else if gone then [(w_id w, WantFail)] else []
+                              | KClosed => if gone then [(w_id w, WantOkC o)] else []
+                              | KClose => if gone && negb (w_pending_cmd w) then [(w_id w, WantOk)] else []
+                              end) mine) in
+      let may :=
+        concat (map (fun w => match w_kind w with
+                              | KClose => if gone && w_pending_cmd w then [(w_id w, WantOk)] else []
+                              | _ => []
+                              end) mine) in
+      (notif_check ls (OEv e) es && done_ok must may es && negb (has_cmd es) && negb (raised es),
+       if gone then mark_gone true o (dones es) (s_open s) else drop_done (dones es) (s_open s))
   | EStream id st cid host port kw =>
-      let '(first, o, objs1) := locate id (l_sobjs ls) (l_gsl ls) in
-      match nthN objs1 o with
-      | None => (false, [])
-      | Some ob =>
-          let gone := s_terminal st in
-          let tv' := tor_step (l_tv ls) e in
-          let att_before := match kfind ts_id id (tss (l_tv ls)) with Some t => ts_att t | None => ANone end in
-          let att_after := match kfind ts_id id (tss tv') with Some t => ts_att t | None => ANone end in
-          let attached_to := match att_before, att_after with
-                             | ANone, AOn c => find_live c (l_cobjs ls) 0
-                             | _, _ => None
-                             end in
-          let mine := filter (fun w => negb (w_circ w) && (w_obj w =? o)) (s_open s) in
-          let must := concat (map (fun w => if gone && negb (w_pending_cmd w) then [(w_id w, WantOk)] else []) mine) in
-          let may := concat (map (fun w => if gone && w_pending_cmd w then [(w_id w, WantOk)] else []) mine) in
-          (notif_check ls (OEv e) es
-           && done_ok must may es && negb (has_cmd es) && negb (raised es),
-           if gone then mark_gone false o (dones es) (s_open s) else drop_done (dones es) (s_open s))
-      end
+      let '(first, o) := locate id (l_sdict ls) (l_ns ls) in
+      let gone := s_terminal st in
+      let mine := filter (fun w => negb (w_circ w) && (w_obj w =? o)) (s_open s) in
+      let must := concat (map (fun w => if gone && negb (w_pending_cmd w) then [(w_id w, WantOk)] else []) mine) in
+      let may := concat (map (fun w => if gone && w_pending_cmd w then [(w_id w, WantOk)] else []) mine) in
+      (notif_check ls (OEv e) es && done_ok must may es && negb (has_cmd es) && negb (raised es),
+       if gone then mark_gone false o (dones es) (s_open s) else drop_done (dones es) (s_open s))
   end.
 
 Definition cmds_ok (kind id : N) (es : list nev) : bool :=
@@ -366,27 +345,25 @@ Definition cmds_ok (kind id : N) (es : list nev) : bool :=
 (* a wait requested now (judged against the state before the request) *)
 Definition spec_request (s : sstate) (circ : bool) (o w : N) (k : wkind) (es : list nev) : bool * list wait * list (N * bool) :=
   let ls := s_l s in
-  match nthN (if circ then l_cobjs ls else l_sobjs ls) o with
-  | None => (false, [], [])
-  | Some ob =>
-      let gone := negb (ob_alive ob) in
-      let cmd := has_cmd es in
-      let must :=
-        match k with
-        | KBuilt => if ob_built ob then [(w, WantOkC o)] else if gone then [(w, WantFail)] else []
-        | KClosed => if gone then [(w, WantOkC o)] else []
-        | KClose => if gone && negb cmd then [(w, WantOk)] else []
-        end in
-      let may := match k with KClose => if gone && cmd then [(w, WantAny)] else [] | _ => [] end in
-      let cmd_ok := match k with KClose => cmds_ok (if circ then 0 else 1) (ob_id ob) es | _ => negb cmd end in
-      let done := memN w (map fst (dones es)) in
-      (* Tor has the id when the command is submitted: 250 OK, else 552 *)
-      let answer := if circ then kmem tc_id (ob_id ob) (tcs (l_tv ls)) else kmem ts_id (ob_id ob) (tss (l_tv ls)) in
-      (no_notifs es && done_ok must may es && cmd_ok && negb (raised es),
-       if done then s_open s
-       else s_open s ++ [{| w_id := w; w_kind := k; w_circ := circ; w_obj := o; w_gone_seen := gone; w_pending_cmd := cmd |}],
-       if cmd then s_cmdq s ++ [(w, answer)] else s_cmdq s)
-  end.
+  let dict := if circ then l_cdict ls else l_sdict ls in
+  let info := tget (info0 0) (if circ then l_cinfo ls else l_sinfo ls) o in
+  let gone := negb (alive dict o) in
+  let cmd := has_cmd es in
+  let must :=
+    match k with
+    | KBuilt => if oi_built info then [(w, WantOkC o)] else if gone then [(w, WantFail)] else []
+    | KClosed => if gone then [(w, WantOkC o)] else []
+    | KClose => if gone && negb cmd then [(w, WantOk)] else []
+    end in
+  let may := match k with KClose => if gone && cmd then [(w, WantAny)] else [] | _ => [] end in
+  let cmd_ok := match k with KClose => cmds_ok (if circ then 0 else 1) (oi_id info) es | _ => negb cmd end in
+  let done := memN w (map fst (dones es)) in
+  (* Tor has the id when the command is submitted: 250 OK, else 552 *)
+  let answer := kmem fst (oi_id info) dict in
+  (no_notifs es && done_ok must may es && cmd_ok && negb (raised es),
+   if done then s_open s
+   else s_open s ++ [{| w_id := w; w_kind := k; w_circ := circ; w_obj := o; w_gone_seen := gone; w_pending_cmd := cmd |}],
+   if cmd then s_cmdq s ++ [(w, answer)] else s_cmdq s).
 
 Definition spec_ack (s : sstate) (es : list nev) : bool * list wait * list (N * bool) :=
   match s_cmdq s with
@@ -433,6 +410,20 @@ Fixpoint oracle_from8 (s : sstate) (ops : list op) (tr : list (list nev)) : bool
 
 Definition oracle8 (ops : list op) (tr : list (list nev)) : bool := oracle_from8 ss0 ops tr.
 
+(* the notification clause alone, operation by operation *)
+Fixpoint notifs_from (ls : lstate) (ops : list op) (tr : list (list nev)) : bool :=
+  match ops, tr with
+  | [], [] => true
+  | o :: ops', es :: tr' =>
+      notif_check ls o es && match lstep ls o with Some ls' => notifs_from ls' ops' tr' | None => false end
+  | _, _ => false
+  end.
+Definition notifs_exact (ops : list op) (tr : list (list nev)) : bool := notifs_from ls0 ops tr.
+
+(* histories without close requests *)
+Definition no_close (ops : list op) : bool :=
+  forallb (fun o => match o with OCClose _ _ | OSClose _ _ => false | _ => true end) ops.
+
 (* ---------------------------------------------------------------------------------------------- open findings *)
 (* input classes of the two open findings (mirrored in harness/drive_C08.py finding_preds):
    C08-F1  Stream.close() on a Stream object whose CLOSED / FAILED was already delivered
@@ -442,7 +433,7 @@ Fixpoint stream_close_after_gone_from (ls : lstate) (ops : list op) : bool :=
   | [] => false
   | o :: t =>
       match o with
-      | OSClose ob _ => match nthN (l_sobjs ls) ob with Some x => negb (ob_alive x) | None => false end
+      | OSClose ob _ => (ob <? l_ns ls) && negb (alive (l_sdict ls) ob)
       | _ => false
       end
       || match lstep ls o with Some ls' => stream_close_after_gone_from ls' t | None => false end
@@ -452,7 +443,7 @@ Fixpoint circuit_close_after_failed_from (ls : lstate) (ops : list op) : bool :=
   | [] => false
   | o :: t =>
       match o with
-      | OCClose ob _ => match nthN (l_cobjs ls) ob with Some x => ob_failed x | None => false end
+      | OCClose ob _ => (ob <? l_nc ls) && oi_failed (tget (info0 0) (l_cinfo ls) ob)
       | _ => false
       end
       || match lstep ls o with Some ls' => circuit_close_after_failed_from ls' t | None => false end
